@@ -15,7 +15,17 @@ MO = "bibtexparser.middlewares.month."
 LB = "bibtexparser.library.Library."
 EN = "bibtexparser.model.Entry."
 EPT = "bibtexparser.entrypoint."
+IP = "bibtexparser.middlewares.interpolate."
 PROPS = {
+    "C11": {
+        "level": "other",
+        "level_text": "Mixed. Proved (contracts on the real interpolate functions, in-place mode, any library whose entry fields are distinct objects): the exact resolution rule -- a str value that is not enclosed and is a key of the live @string index is replaced by that string's value object, every other field keeps its value object; String blocks, keys, types, raw, block list and the string index are outside the frame; the live @string per key is the first one by the library's first-wins index (C08/C09 contracts). Bounded (native, labelled): documents of the quantifier through parse_string (source text -> values needs the grammar lemma), copy mode, the recorded key list, order before enclosing removal end to end (the order itself is C20's default-stack clause).",
+        "level_note": STD_NOTE + "; distinctness of Field objects is a precondition stated through an owner map; list comprehension (Library.entries) as assumed builtin contract.",
+        "modules": ["schema", "interpolate"],
+        "functions": [IP + "_value_is_nonstring_or_enclosed", IP + "ResolveStringReferencesMiddleware.transform"],
+        "native": "p11",
+        "explanation": "proved: resolution rule and frame of ResolveStringReferences.transform (in-place mode); bounded: documents through parse_string, copy mode, recorded keys",
+    },
     "C20": {
         "level": "other",
         "level_text": "Mixed. Proved (contracts on the real entry-point functions, every argument form, stacks of any length): stack construction (given stack used as given; default parse stack = resolve-string-references then remove-enclosings, then append_middleware in order; prepend_middleware in order then the default copy-mode AddEnclosing('{') write stack; both a stack and an addition -> ValueError before any middleware runs) and application: the ghost trace of Middleware.transform calls is exactly the stack, left to right, each applied to the previous result, the first to the split result / the given library, and the writer receives the last result and the given format and its text is returned. Bounded (native, labelled): parse_file / write_file (file I/O is outside the modelled subset), BlockMiddleware's per-block splice protocol, probe stacks end to end.",
